@@ -12,6 +12,9 @@ package main
 //        time-out) | x undecodable | r refused by PassEvent | s split (Spawn: the pooled event becomes the
 //        child-parent, two non-pooled children go to the output)
 //        result: e <off> <k> <finalize flags…> ; …  maxok <0|1> end <inUseRaw> <waiters>
+//   c05.bpipe <kind> <cap> <parallel> <nsrc> <batch size> <workers> <k>…  and
+//   c05.bchain <kind> <cap> <order> <batch size> <workers> <k>… : the same runs with an output built on the REAL
+//        pipeline.Batcher (OutFn walks the batch with Batch.ForEach, the batcher commits every event of it)
 //   c05.chain <kind> <cap> <order> <k>…   one processor, one stream, TWO actions: order 0 = [dropper, holder],
 //        order 1 = [holder, dropper]; the dropper discards events of kind q, the holder is the action of
 //        c05.pipe. A held event followed by a q (consumed by the other, non-busy action) and then silence has
@@ -19,6 +22,7 @@ package main
 
 import (
 	"bufio"
+	"context"
 	"fmt"
 	"runtime"
 	"sort"
@@ -39,6 +43,8 @@ func init() {
 	execs["c05.free"] = execPoolFree
 	execs["c05.pipe"] = func(t *hx.Toks) string { return execPipeChain(t, false) }
 	execs["c05.chain"] = func(t *hx.Toks) string { return execPipeChain(t, true) }
+	execs["c05.bpipe"] = func(t *hx.Toks) string { return execPipeChainB(t, false, true) }
+	execs["c05.bchain"] = func(t *hx.Toks) string { return execPipeChainB(t, true, true) }
 	gens["C05"] = genC05
 }
 
@@ -198,6 +204,36 @@ func (a *pipeAct) Do(e *pipeline.Event) pipeline.ActionResult {
 	}
 }
 
+// batchOut: an output built on the real pipeline.Batcher, like every batching output plugin: Out adds the
+// event to the batcher, the worker's OutFn walks the batch with Batch.ForEach (which skips split parents on
+// purpose), the batcher commits the batch.
+type batchOut struct {
+	size, workers int
+	batcher       *pipeline.Batcher
+	cancel        context.CancelFunc
+}
+
+func (o *batchOut) Start(_ pipeline.AnyConfig, params *pipeline.OutputPluginParams) {
+	o.batcher = pipeline.NewBatcher(pipeline.BatcherOptions{
+		PipelineName:   params.PipelineName,
+		OutputType:     "verif_batch",
+		OutFn:          func(_ *pipeline.WorkerData, b *pipeline.Batch) { b.ForEach(func(*pipeline.Event) {}) },
+		Controller:     params.Controller,
+		Workers:        o.workers,
+		BatchSizeCount: o.size,
+		FlushTimeout:   3 * time.Millisecond,
+		MetricCtl:      params.MetricCtl,
+	})
+	ctx, cancel := context.WithCancel(context.Background())
+	o.cancel = cancel
+	o.batcher.Start(ctx)
+}
+func (o *batchOut) Stop() {
+	o.batcher.Stop()
+	o.cancel()
+}
+func (o *batchOut) Out(e *pipeline.Event) { o.batcher.Add(e) }
+
 // pipeDrop: discards events of kind q, passes everything else untouched (never busy).
 type pipeDrop struct{}
 
@@ -215,7 +251,10 @@ func (a *pipeDrop) Do(e *pipeline.Event) pipeline.ActionResult {
 
 var pipeSeq atomic.Int64
 
-func execPipeChain(t *hx.Toks, chain bool) string {
+func execPipeChain(t *hx.Toks, chain bool) string { return execPipeChainB(t, chain, false) }
+
+// batched: the output is batchOut; two more leading parameters <batch size> <workers>
+func execPipeChainB(t *hx.Toks, chain, batched bool) string {
 	kind := t.Next()
 	capacity := t.Int()
 	parallel, nsrc, order := false, 1, 0
@@ -224,6 +263,14 @@ func execPipeChain(t *hx.Toks, chain bool) string {
 	} else {
 		parallel = t.Bool()
 		nsrc = t.Int()
+	}
+	bsize, bworkers := 0, 0
+	if batched {
+		bsize = t.Int()
+		bworkers = t.Int()
+		if bsize < 1 || bsize > 64 || bworkers < 1 || bworkers > 8 {
+			return "bad-case"
+		}
 	}
 	var kinds []string
 	for !t.Done() {
@@ -258,11 +305,18 @@ func execPipeChain(t *hx.Toks, chain bool) string {
 		PluginStaticInfo:  &pipeline.PluginStaticInfo{Type: "verif_in"},
 		PluginRuntimeInfo: &pipeline.PluginRuntimeInfo{Plugin: in},
 	})
-	outAny, _ := devnull.Factory()
-	p.SetOutput(&pipeline.OutputPluginInfo{
-		PluginStaticInfo:  &pipeline.PluginStaticInfo{Type: "devnull"},
-		PluginRuntimeInfo: &pipeline.PluginRuntimeInfo{Plugin: outAny},
-	})
+	if batched {
+		p.SetOutput(&pipeline.OutputPluginInfo{
+			PluginStaticInfo:  &pipeline.PluginStaticInfo{Type: "verif_batch"},
+			PluginRuntimeInfo: &pipeline.PluginRuntimeInfo{Plugin: &batchOut{size: bsize, workers: bworkers}},
+		})
+	} else {
+		outAny, _ := devnull.Factory()
+		p.SetOutput(&pipeline.OutputPluginInfo{
+			PluginStaticInfo:  &pipeline.PluginStaticInfo{Type: "devnull"},
+			PluginRuntimeInfo: &pipeline.PluginRuntimeInfo{Plugin: outAny},
+		})
+	}
 	holder := &pipeline.ActionPluginStaticInfo{
 		PluginStaticInfo: &pipeline.PluginStaticInfo{
 			Type:    "verif_act",
@@ -460,6 +514,28 @@ func genC05(w *bufio.Writer, rng *hx.Rng, tier string) {
 			ks = append(ks, calpha[rng.Intn(len(calpha))])
 		}
 		fmt.Fprintf(w, "c05.chain %s %d %d %s\n", []string{"lowmem", "std"}[rng.Intn(2)], rng.Range(1, 6), rng.Intn(2), strings.Join(ks, " "))
+	}
+	// the same kinds through an output built on the real Batcher (batch size 1..4, 1..2 workers)
+	bfixed := []string{"s", "p", "s s s s s p", "h s p", "s h s d s x s r s p", "p p p p p", "h p", "s s"}
+	for _, k := range []string{"lowmem", "std"} {
+		for bi, f := range bfixed {
+			fmt.Fprintf(w, "c05.bpipe %s %d 0 1 %d %d %s\n", k, 1+len(f)%3, 1+bi%4, 1+bi%2, f)
+		}
+		fmt.Fprintf(w, "c05.bchain %s 2 0 2 1 h q s\n", k)
+		fmt.Fprintf(w, "c05.bchain %s 3 1 1 2 s h q s s s p\n", k)
+	}
+	nb := 12
+	if tier == "thorough" {
+		nb = 150
+	}
+	balpha := []string{"p", "p", "d", "h", "x", "r", "s", "s", "s"}
+	for i := 0; i < nb; i++ {
+		var ks []string
+		for j := rng.Range(1, 40); j > 0; j-- {
+			ks = append(ks, balpha[rng.Intn(len(balpha))])
+		}
+		fmt.Fprintf(w, "c05.bpipe %s %d %s %d %d %d %s\n", []string{"lowmem", "std"}[rng.Intn(2)], rng.Range(1, 8),
+			hx.B(rng.Chance(1, 3)), rng.Range(1, 3), rng.Range(1, 4), rng.Range(1, 2), strings.Join(ks, " "))
 	}
 	alphabet := []string{"p", "p", "p", "d", "d", "h", "x", "r", "s", "s"}
 	for i := 0; i < npipe; i++ {
